@@ -98,6 +98,10 @@ func runAdequacy(self, dir, id string) *adequacy {
 		if _, err := os.Stat(p); err != nil {
 			p = filepath.Join(d, "patch.diff")
 		}
+		if nb, err := os.ReadFile(filepath.Join(d, "NOTE.txt")); err == nil && strings.Contains(string(nb), "not required to be reported") {
+			ad.Skipped = append(ad.Skipped, "seeded/"+filepath.Base(d)+": obsolete on the repaired tree (see its NOTE.txt)")
+			continue
+		}
 		items = append(items, item{"seeded/" + filepath.Base(d), p})
 	}
 	if b, err := os.ReadFile("/verif/selftest/reintroduced/INDEX.tsv"); err == nil {
